@@ -95,16 +95,22 @@ class Ctx:
             self._keep = keep
         return self._keep
 
-    def x(self, fn):
-        """expanded view of a scope function: private, non-role helper functions it calls are inlined (rules/inline.py)"""
+    def x(self, fn, keep_adts=()):
+        """expanded view of a scope function: private, non-role helper functions it calls are inlined (rules/inline.py); methods of the types named in
+        keep_adts stay calls (a rule that looks for `Freelist::pages()` / `size()` calls wants them kept)"""
         if fn is None:
             return None
         if not hasattr(self, '_views'):
             self._views = {}
-        if fn.path not in self._views:
+        key = (fn.path, tuple(sorted(keep_adts)))
+        if key not in self._views:
             import inline
-            self._views[fn.path] = inline.expand(self.facts, fn, self.keep_set() - {fn})
-        return self._views[fn.path]
+            keep = self.keep_set() - {fn}
+            if keep_adts:
+                from facts import last_seg
+                keep = keep | {g for g in self.facts.fns if g.self_adt and last_seg(g.self_adt) in keep_adts}
+            self._views[key] = inline.expand(self.facts, fn, keep)
+        return self._views[key]
 
     def units(self):
         """analysis units for whole-crate scans of rules that reason inside one body: every kept function (public API, trait methods, roles, closures) with
